@@ -1721,6 +1721,36 @@ var _ uuid.UUID
 // a new index: the defaults of a configuration without options (ef 20, efConstruction 200, m 16, mMax 16, mMax0 32, simple
 // selection), sixteen shard maps of its own, nothing stored, the given dimension and metric; a partition's index gets the
 // dimension and the metric of its dataset's record
+// C14 (wiring): the catalogue manager registers its three consumers (apply, restore, snapshot) with the group it is given -
+// each once, all three or an error - and starts with an empty catalogue over the given store, transport, book and allocator
+//@ func utils.NewNotificator
+//@ props C14 C12 C11
+//@ ensures [new] ret != nil && fresh(ret) && ret.chans != nil && fresh(ret.chans) && len(ret.chans) == 0
+//@ modifies nothing
+//@ func storage.NewDatasetManager
+//@ props C14 C05 C12
+//@ safety UNCLAIMED
+//@ ghost regP int = 0
+//@ ghost regR int = 0
+//@ ghost regS int = 0
+//@ at call RegisterProcessFn
+//@ requires [C14 registers-with-the-given-group] regP == 0
+//@ set regP = ite(isnil($ret0), 1, 0)
+//@ end
+//@ at call RegisterProcessSnapshotFn
+//@ requires [C14 registers-with-the-given-group] regR == 0 && regP == 1
+//@ set regR = ite(isnil($ret0), 1, 0)
+//@ end
+//@ at call RegisterSnapshotFn
+//@ requires [C14 registers-with-the-given-group] regS == 0 && regP == 1 && regR == 1
+//@ set regS = ite(isnil($ret0), 1, 0)
+//@ end
+//@ requires [args] istype(raft, *raft.RaftGroup) || istype(raft, *raft.sharedGroupProxy)
+//@ ensures [C14 all-three-consumers-registered-or-an-error] isnil(ret1) ==> regP == 1 && regR == 1 && regS == 1
+//@ ensures [C12 C14 empty-catalogue-over-what-it-was-given] isnil(ret1) ==> ret0 != nil && fresh(ret0) && ret0.raft == raft && ret0.raftWalDB == raftWalDB && ret0.raftTransport == raftTransport && ret0.clusterConn == clusterConn && ret0.allocator == allocator && ret0.datasets != nil && fresh(ret0.datasets) && len(ret0.datasets) == 0 && ret0.notificator != nil
+//@ ensures [C14 a-proxys-registration-leaves-the-raft-groups-slots-alone] !istype(raft, *raft.RaftGroup) ==> forall g *raft.RaftGroup :: g.processFn == old(g.processFn) && g.processSnapshotFn == old(g.processSnapshotFn) && g.snapshotFn == old(g.snapshotFn)
+//@ modifies type raft.RaftGroup.processFn, type raft.RaftGroup.processSnapshotFn, type raft.RaftGroup.snapshotFn, type raft.sharedGroupProxy.processFn, type raft.sharedGroupProxy.processSnapshotFn, type raft.sharedGroupProxy.snapshotFn
+
 // C11 ("success only if committed and applied"): a waiting proposer takes whatever its notification channel yields as its
 // outcome, so nothing but Remove (of the waiter's own id, after the wait) may close a notification channel - closing a
 // partition stops its group and closes no channel (a closed channel would read as a nil outcome, i.e. as success)
